@@ -17,6 +17,8 @@ dst=/verif/seeded/$id-$dm
 if [ -n "$SEEDED_ROUND3" ]; then wt=/tmp/wv_$id; out=$wt/out; dst=/verif/seeded/M$id-$m; fi
 # round 4 (failure-handling, module-targeted): worktree /tmp/ww_N, stored as F<N>-<letter>
 if [ -n "$SEEDED_ROUND4" ]; then wt=/tmp/ww_$id; out=$wt/out; dst=/verif/seeded/F$id-$m; fi
+# round 5: worktree /tmp/wy_<Cxx>, stored as <Cxx>-e / <Cxx>-f
+if [ -n "$SEEDED_ROUND5" ]; then wt=/tmp/wy_$id; out=$wt/out; [ "$m" = "a" ] && dm=e; [ "$m" = "b" ] && dm=f; dst=/verif/seeded/$id-$dm; fi
 [ -f $out/mutant_$m.diff ] || { echo "no mutant $id $m"; exit 2; }
 cd $wt || exit 2
 git checkout -q -- src 2>/dev/null
